@@ -24,6 +24,16 @@ def judge_case(prop, case, body):
 
         o = R.run_real([case], repo_root=root)[0]
         return o.get("then"), [b[0] for b in cmdprops.judge_immutability(case, o)]
+    if isinstance(case, dict) and "class" in case and "inputs" in case and case.get("reorder"):
+        from . import cmdprops, replay as R
+
+        o = R.run_real([case], repo_root=root)[0]
+        return {"listed": o.get("result"), "reordered": o.get("reordered")}, [b[0] for b in cmdprops.judge_reorder(case, o)]
+    if isinstance(case, dict) and "class" in case and "inputs" in case and body.get("obligation", "").endswith("bounded:shape-of-every-input"):
+        from . import cmdprops, replay as R
+
+        o = R.run_real([case], repo_root=root)[0]
+        return o.get("result") or o.get("exc_class"), [b[0] for b in cmdprops.judge_shape_confusion(case, o)]
     if isinstance(case, dict) and "class" in case and "inputs" in case:
         from . import cmdprops
 
